@@ -74,14 +74,14 @@ theorem omitted_default (so : SOpts) (h1 : so.excludeNone = false) (h2 : so.excl
   unfold omitted; simp [h1, h2]
 
 /-! ### list lemmas -/
-theorem lookupKey_of_mem : ∀ {js : List (String × Py)}, (js.map (·.1)).Nodup → ∀ p ∈ js, lookupKey js p.1 = some p.2
+theorem lookupKey_of_mem_nodup : ∀ {js : List (String × Py)}, (js.map (·.1)).Nodup → ∀ p ∈ js, lookupKey js p.1 = some p.2
   | (k, j) :: js, hn, p, hp => by
     rw [List.map_cons, List.nodup_cons] at hn
     unfold lookupKey
     rcases List.mem_cons.1 hp with rfl | hp'
     · simp
     · have hne : k ≠ p.1 := fun h => hn.1 (h ▸ List.mem_map.2 ⟨p, hp', rfl⟩)
-      have := lookupKey_of_mem hn.2 p hp'
+      have := lookupKey_of_mem_nodup hn.2 p hp'
       unfold lookupKey at this
       simp [List.find?_cons, hne, this]
 
@@ -281,7 +281,7 @@ theorem roundtripO_nocopy_off (o : DOpts) (ho : OptsOk o) (hnc : o.noCopy = fals
         have hobj : run (.obj ci (ctorOf o ci) {} o.additionalProperties (compileF o fs)) (.dict js)
             = .ok (.obj ci.name fvs) := by
           rw [run]; simp only [onDict]
-          have hlook : ∀ p ∈ js, lookupKey js p.1 = some p.2 := lookupKey_of_mem (hkeys ▸ hand)
+          have hlook : ∀ p ∈ js, lookupKey js p.1 = some p.2 := lookupKey_of_mem_nodup (hkeys ▸ hand)
           rw [hrun js hlook]
           unfold finishObj
           simp only
